@@ -1289,6 +1289,21 @@ def m_skip_next(I, st, call):
     return None
 
 
+@prefix_model("<core::slice::iter::Chunks<'a, T> as core::iter::traits::iterator::Iterator>::nth")
+def m_chunks_nth(I, st, call):
+    """chunks.nth(n) on a fresh chunk iterator = chunks.skip(n).next(): the n-th item, and the cursor is left behind it"""
+    ref = call.args[0]
+    n = call.args[1] if len(call.args) > 1 else None
+    if not isinstance(ref, RefV) or not isinstance(n, IntV):
+        return None
+    it = I.read(st, ref.place)
+    if not (isinstance(it, OpaqueV) and it.get("iter") == "chunks") or it.get("cur_off") is not None or it.get("skip") is not None \
+            or it.get("taken", 0) != 0:
+        return None
+    I.write(st, ref.place, it.with_(skip=n.aff))
+    return m_skip_next(I, st, call)
+
+
 def generic_next(I, st, call):
     """Iterator::next on an untracked iterator: None or Some(unknown item)"""
     ref = call.args[0]
@@ -1309,6 +1324,7 @@ def generic_next(I, st, call):
               "<alloc::collections::linked_list::IterMut<'a, T> as core::iter::traits::iterator::Iterator>::next",
               "<core::iter::adapters::enumerate::Enumerate<I> as core::iter::traits::iterator::Iterator>::next",
               "<core::slice::iter::Iter<'a, T> as core::iter::traits::iterator::Iterator>::next",
+              "<core::slice::iter::Chunks<'a, T> as core::iter::traits::iterator::Iterator>::next",
               "<&mut I as core::iter::traits::iterator::Iterator>::next",
               "core::iter::traits::iterator::Iterator::next")
 def m_next(I, st, call):
